@@ -160,7 +160,11 @@ def cases(tier, seed):
     for name in _faulty_variants():
         K_ = 1 if tier == "quick" else 6
         for k in range(K_):
-            yield {"cls": name, "variant": "faulty", "depth": b["depth"], "layout": "C", "slice": [k, K_]}
+            # quick: the interruption kind of inner failure is explored to depth 2 (failure, then a fit compared with a fresh clone),
+            # the Exception kind to the full depth; thorough: both kinds to the full depth
+            yield {"cls": name, "variant": "faulty", "depth": b["depth"], "layout": "C", "slice": [k, K_], "interrupt": tier != "quick"}
+        if tier == "quick":
+            yield {"cls": name, "variant": "faulty", "depth": 2, "layout": "C", "slice": [0, 1], "interrupt": True}
 
 
 def _layout(a, lay):
@@ -304,7 +308,8 @@ def run_case(case):
     if arrays:
         ops += [("bad", "inf"), ("bad", "len"), ("bad", "one"), ("bad", "dim")]
     ops += [("fault", k) for k in range(Kfault)]
-    ops += [("fault", k, "interrupt") for k in range(Kfault)]
+    if case.get("interrupt", True):
+        ops += [("fault", k, "interrupt") for k in range(Kfault)]
     ops = [o for o in ops if not (o[0] == "bad" and dataset(o) is None)]
 
     def do_fit(est, X, y, w=None):
